@@ -181,6 +181,7 @@ class Frame:
         self.env = env
         self.depth = depth
         self.exc_stack = []     # active handled exceptions (for bare raise)
+        self.globals_decl = set()   # names declared ``global`` in this frame
 
 
 class Interp:
@@ -229,6 +230,8 @@ class Interp:
         self.known_ne = {}
         self.iter_lens = {}
         self.path_types = {}        # types learnt from isinstance() forks
+        self.global_over = {}       # (module, name) -> value written via
+                                    # a ``global`` declaration on this path
         self.exact = True
         self.notes = []
         self.steps = 0
@@ -650,7 +653,7 @@ class Interp:
         pass
 
     def st_Global(self, s, fr):
-        pass
+        fr.globals_decl.update(s.names)
 
     def st_Nonlocal(self, s, fr):
         pass
@@ -771,7 +774,15 @@ class Interp:
 
     def assign(self, t, v, fr):
         if isinstance(t, ast.Name):
-            fr.env[t.id] = v
+            if t.id in fr.globals_decl and fr.func is not None and \
+                    fr.func.module is not None:
+                # module state written by a call: kept per path, seen by
+                # every later call on the path
+                self.global_over[(fr.func.module.name, t.id)] = v
+                self.effect('global_write', fr.func.module.name, t.id,
+                            self.termify(v))
+            else:
+                fr.env[t.id] = v
         elif isinstance(t, (ast.Tuple, ast.List)):
             items = self.unpack(v, len(t.elts), t)
             for e, x in zip(t.elts, items):
@@ -1164,9 +1175,13 @@ class Interp:
         return K(e.value)
 
     def ex_Name(self, e, fr):
-        if e.id in fr.env:
+        if e.id in fr.env and e.id not in fr.globals_decl:
             return fr.env[e.id]
         f = fr.func
+        if self.global_over and f is not None and f.module is not None:
+            key = (f.module.name, e.id)
+            if key in self.global_over:
+                return self.global_over[key]
         if f is not None and f.closure is not None and e.id in f.closure:
             return f.closure[e.id]
         return self.world.global_name(self, e.id, f.module if f else None)
